@@ -140,7 +140,7 @@ def run(ctx):
     h = ctx.compile_harness("c08_widen.cc")
     wd = ctx.workdir()
     quick = ctx.tier == "quick"
-    nhist = 480 if quick else 16000
+    nhist = 400 if quick else 16000
     seed, first, last = ctx.seed, 0, nhist
     if ctx.replay:
         rp = json.load(open(ctx.replay))
@@ -235,6 +235,9 @@ def run(ctx):
         "mismatch_classes": {"%s %s" % (k[0], ",".join(k[1])): v for k, v in per_key.items()},
         "journal_lines": len(journal),
     })
+    if not ctx.violations and not ctx.replay:
+        import shutil
+        shutil.rmtree(wd, ignore_errors=True)
     ctx.assumptions += [
         "the judges (K1 deciders for polyhedra / shapes / boxes / powersets, K2 for grids) are proved sound and complete; "
         "'all chains, all representations' of the real code is sampled by seeded adversarial chains",
